@@ -1318,12 +1318,6 @@ fn classify(e: &koto_runtime::Error) -> String {
         ErrorKind::StringError(s) => {
             if s == "hboom" {
                 "E:herr".into()
-            } else if s.starts_with("boom\n---") || s == "boom" {
-                "E:iter:thrown".into()
-            } else if s.starts_with("Unimplemented\n---") || s == "Unimplemented" {
-                "E:iter:kunimpl".into()
-            } else if s.starts_with("expected ") && s.contains(", found ") {
-                "E:iter:type".into()
             } else if s.starts_with("iterator.reversed: the provided iterator isn't bidirectional") {
                 "E:notrev".into()
             } else if s.starts_with("unexpected key: ") {
